@@ -253,3 +253,54 @@ TASKS.append(FunctionTask(Contract(qual=_QA + "n_azimuths", params=["self"], gho
 TASKS.append(FunctionTask(Contract(qual=_QA + "amplitude", params=["self"], ghost=_GH, make_inputs=_az_self, ensures=["len(result) == HS"], modifies=[], is_property=True,
                                    notes="one table of curves per azimuth, in azimuth order (entry k is hvsrs[k].amplitude: the comprehension's element expression)"),
                           module_env=ENV, label=_QA + "amplitude", clauses=["amplitude = the per-azimuth tables in azimuth order"]))
+
+
+# ---- HvsrTraditional.__eq__: similar, as many curves, the tables of curves close, both accept masks equal entry by entry -----------------------------------------------
+from pyvc.contract import sym_arr2
+from pyvc.core import A2
+ALLCLOSE2 = z3.Function("np_allclose_2d", A2(R), I, I, A2(R), I, I, R, R, B)
+KS, KO, MF = z3.Ints("n_curves_self n_curves_other n_frequencies")
+
+
+def _m_allclose_any(ex, st, args, kw, node):
+    a, b = ex.arr(st, args[0]), ex.arr(st, args[1])
+    if a.rank == 2 and b.rank == 2 and not (set(kw) - {"atol", "rtol"}):
+        return ALLCLOSE2(a.data, a.shape[0], a.shape[1], b.data, b.shape[0], b.shape[1], _tol(kw, "atol", "1e-8"), _tol(kw, "rtol", "1e-5"))
+    return _m_allclose(ex, st, args, kw, node)
+
+
+def _m_all(ex, st, args, kw, node):
+    """np.all of a boolean vector: every entry true (by its definition; an empty vector gives True)"""
+    d = ex.arr(st, args[0])
+    if d.elem != "bool" or d.rank != 1 or kw or len(args) != 1:
+        raise Undecided("np.all of something other than one boolean vector")
+    k = z3.Int("k!all")
+    return z3.ForAll([k], z3.Implies(z3.And(k >= 0, k < d.shape[0]), ex.sel1(d, k)))
+
+
+def _trad(ex, st, name, k):
+    f = {"frequency": sym_arr1(ex, st, f"frequency_{name}", MF, owner=f"param:{name}.frequency"),
+         "amplitude": sym_arr2(ex, st, f"amplitude_{name}", k, MF, owner=f"param:{name}.amplitude"),
+         "valid_window_boolean_mask": sym_arr1(ex, st, f"valid_window_{name}", k, elem="bool", owner=f"param:{name}.valid_window_boolean_mask"),
+         "valid_peak_boolean_mask": sym_arr1(ex, st, f"valid_peak_{name}", k, elem="bool", owner=f"param:{name}.valid_peak_boolean_mask"),
+         "n_curves": k}
+    return sym_obj(ex, st, "HvsrTraditional", f, owner=f"param:{name}")
+
+
+def _trad_inputs(ex, st):
+    st.env["self"], st.env["other"] = _trad(ex, st, "self", KS), _trad(ex, st, "other", KO)
+    return [KS >= 1, KO >= 1, MF >= 1]
+
+
+_QT = "hvsrpy.hvsr_traditional.HvsrTraditional."
+_GT = dict(_GH, KS=KS, KO=KO,
+           ALLCLOSE2=FuncV(lambda ex, st, a, k, n_: ALLCLOSE2(ex.arr(st, a[0]).data, ex.arr(st, a[0]).shape[0], ex.arr(st, a[0]).shape[1], ex.arr(st, a[1]).data, ex.arr(st, a[1]).shape[0],
+                                                             ex.arr(st, a[1]).shape[1], z3.RealVal("1e-8"), z3.RealVal("1e-5")), "ALLCLOSE2"))
+TASKS.append(FunctionTask(Contract(qual=_QT + "__eq__", params=["self", "other"], ghost=_GT, make_inputs=_trad_inputs,
+                                   ensures=["result == (SIMILAR(self, other) and KS == KO and ALLCLOSE2(self.amplitude, other.amplitude) "
+                                            "and forall(i, 0, KS, self.valid_window_boolean_mask[i] == other.valid_window_boolean_mask[i]) "
+                                            "and forall(i, 0, KS, self.valid_peak_boolean_mask[i] == other.valid_peak_boolean_mask[i]))"], modifies=[],
+                                   notes="equal iff similar, as many curves, the curves of the one close to the other's and both accept masks equal entry by entry"),
+                          module_env=dict(ENV, np=ModV("np", dict(_NP.attrs, allclose=FuncV(_m_allclose_any, "np.allclose"), all=FuncV(_m_all, "np.all")))),
+                          registry={"HvsrTraditional.is_similar": FuncV(_m_sim_az, "HvsrTraditional.is_similar")}, label=_QT + "__eq__",
+                          clauses=["equal = similar, same number of curves, curves close, accept masks equal"]))
